@@ -66,8 +66,11 @@ def run(rep: C.Report, pest, thorough: bool) -> None:
                 continue
             text = "".join(chr(c) for c in r["inp"])
             cases += 1
-            want = [{"op": e["op"], "pos": e["pos"], "ustk": [list(x) for x in e["ustk"]], "rdepth": e["rdepth"], "adepth": e["adepth"]} for e in r["tr"]]
+            want_all = [{"op": e["op"], "pos": e["pos"], "ustk": [list(x) for x in e["ustk"]], "rdepth": e["rdepth"], "adepth": e["adepth"]} for e in r["tr"]]
+            # the generated POP_ALL matches first and pops afterwards: it has no checkpoint of its own (events marked "own")
+            want_gen = [w for w, e in zip(want_all, r["tr"]) if not e["own"]]
             for mode in ("interp", "gen"):
+                want = want_all if mode == "interp" else want_gen
                 sink: list[dict] = []
                 with statetrace.recording(pest, sink, raw=True):
                     o = M.run_parse(pest, p[mode], "r", text, r["k"], tags=True)
@@ -95,5 +98,5 @@ def run(rep: C.Report, pest, thorough: bool) -> None:
         if fp_agree[mode] != fp_total[mode]:
             print(f"NOTE {rep.prop}: [{mode}] furthest-failure position differs from PestVM's in {fp_total[mode] - fp_agree[mode]} of {fp_total[mode]} failed cases (model drift, not a violation); first: {json.dumps(fp_first[mode])[:500]}")
     for mode, n in drift.items():
-        if n and mode == "interp":  # the generated code places some checkpoints differently by design (POP_ALL, repetition): counted in the evidence only
+        if n:
             print(f"NOTE {rep.prop}: [{mode}] checkpoint events differ from PestVM's in {n} of {cases} cases (model drift, not a violation); first: {json.dumps(first_drift[mode])[:700]}")
